@@ -1,1 +1,18 @@
-fn main() { let _ = vcommon::Ctx::from_args(); }
+mod c07;
+mod c29;
+mod c35;
+mod rt;
+
+fn main() {
+    let ctx = vcommon::Ctx::from_args();
+    ctx.watchdog(ctx.pick(900, 7200));
+    match ctx.prop.as_str() {
+        "C07" => c07::run(&ctx),
+        "C29" => c29::run(&ctx),
+        "C35" => c35::run(&ctx),
+        p => {
+            println!("INCONCLUSIVE vh-vmrt does not serve {p}");
+            std::process::exit(2);
+        }
+    }
+}
